@@ -1182,7 +1182,10 @@ def sphere_like_constructors(check, prog):
     its own __init__ must not lose the refusals by not calling it."""
     SPH = SC + 'sphere.Sphere'
     n = 0
-    for C in sorted(prog.subclasses(SPH)):
+    # (and the other primitive shape the property names: an ellipsoid's semi-axes
+    # are radii too -- contains() squares them, so a negative one is only seen in
+    # the inverted bounding box and in voxelate)
+    for C in sorted(prog.subclasses(SPH)) + [SC + 'ellipsoid.Ellipsoid']:
         c = prog.classes[C]
         if '__init__' not in c.methods:
             continue
@@ -1216,4 +1219,4 @@ def sphere_like_constructors(check, prog):
                       'a centre that is not three numbers raises InvalidScatterer', loc,
                       fail_detail='%s(...) stores any centre: center=(0, 0) or center=3 is '
                       'accepted' % short)
-    check.floor('sphere-like constructors checked', n, 2)
+    check.floor('sphere-like constructors checked', n, 3)
